@@ -328,3 +328,36 @@ func (m *Model) TotalCredit() *big.Int {
 	st, _ := m.Stats()
 	return new(big.Int).Set(&st.TotalCredit)
 }
+
+// Clone returns a deep copy (used to predict the effect of an operation).
+func (m *Model) Clone() *Model {
+	m.mu.Lock()
+	defer m.mu.Unlock()
+	c := NewModel()
+	c.Now = m.Now
+	for k, v := range m.nodes {
+		c.nodes[k] = v
+	}
+	for k, v := range m.tracked {
+		c.tracked[k] = map[store.NodeID]time.Time{}
+		for p, t := range v {
+			c.tracked[k][p] = t
+		}
+	}
+	for k, v := range m.link {
+		c.link[k] = v
+	}
+	for k, v := range m.wallets {
+		c.wallets[k] = new(big.Int).Set(v)
+	}
+	for k, v := range m.trials {
+		c.trials[k] = new(big.Int).Set(v)
+	}
+	for k, v := range m.nonces {
+		c.nonces[k] = v
+	}
+	for k, v := range m.hasNonce {
+		c.hasNonce[k] = v
+	}
+	return c
+}
